@@ -103,6 +103,13 @@ def run(rep, tier, seed):
             rep.case(case.canon, nontrivial=True)
             rep.count('long-strings')
             check_case(rep, drv, case, None)
+            if n_chars in (1001, 2500):
+                # the segmented form under multi-octet identifiers (tag numbers >= 31), implicit and explicit
+                for mode, cls, num in (('i', 'c', 31), ('i', 'a', 40), ('e', 'p', 16384), ('i', 'p', 2 ** 32)):
+                    case = engine.Case(('tag', mode, cls, num, ('str', kind)), v)
+                    rep.case(case.canon, nontrivial=True)
+                    rep.count('long-strings-high-tags')
+                    check_case(rep, drv, case, None)
     t = ('bits',)
     for nb in (7999, 8000, 8001, 8009, 20000):
         case = engine.Case(t, ('bits', ''.join(rng.choice('01') for _ in range(nb))))
@@ -115,7 +122,8 @@ def run(rep, tier, seed):
         shapes += ['0' * nb, '0' * (nb - 1) + '1', '1' + '0' * (nb - 1), '0' * 8000 + '1' * (nb - 8000),
                    '0' * 7999 + '1' + '0' * (nb - 8000), '1' * 8000 + '0' * (nb - 8000)]
     for bits in shapes:
-        for tt in (t, ('seq', [('r', None, ('int',)), ('r', None, ('tag', 'i', 'c', 0, ('bits',)))])):
+        for tt in (t, ('seq', [('r', None, ('int',)), ('r', None, ('tag', 'i', 'c', 0, ('bits',)))]),
+                   ('seq', [('r', None, ('int',)), ('r', None, ('tag', 'i', 'p', 31, ('bits',)))])):
             v = ('bits', bits) if tt is t else ('seq', [('i', 5), ('bits', bits)])
             case = engine.Case(tt, v)
             rep.case(case.canon, nontrivial=True)
